@@ -166,6 +166,41 @@ theorem range_queries_sufficient {ltId : ι → ι → Bool} (hId : StrictTotal 
   rw [hm]
   cases a.conn.first <;> cases a.conn.last <;> rfl
 
+/-- **time_page_info** — with the id tie-break, `startCursor`/`endCursor` are the first/last returned
+    edge and the flag on the side of the count says exactly whether more matching edges exist than
+    were asked for (this is what makes following the cursors terminate at the right place). -/
+theorem time_page_info {ltId : ι → ι → Bool} (hId : StrictTotal ltId)
+    {sort : List (TCursor ι) → List (TCursor ι)} (hs : LawfulSort (ltC ltId) sort)
+    {D S : List (TCursor ι)} (hperm : S.Perm D) (hsorted : Sorted (ltC ltId) S)
+    (hD : ∀ c, c ∈ D → Int64Range c.nano) {g : Int → Int → Int → List (TCursor ι)}
+    (hg : HonoursById ltId D g)
+    {dec : String → Option (TCursor ι)} {a : TArgs} {av bv : Option (TCursor ι)}
+    (hacc : Accepted dec a.conn av bv) (tc : Option Int) (sel : Sel) (hsel : sel.pageInfo = true) :
+    ∃ c pi, resolveTime ltId sort dec g tc a sel = .ok c ∧ c.pageInfo = some pi ∧
+      pi.startCursor = c.edges.head? ∧ pi.endCursor = c.edges.getLast? ∧
+      (∀ n, a.conn.first = some n → pi.hasNextPage =
+        decide (((matching ltId S av bv a.atOrAfterTime a.beforeTime).length : Int) > n)) ∧
+      (∀ n, a.conn.last = some n → pi.hasPreviousPage =
+        decide (((matching ltId S av bv a.atOrAfterTime a.beforeTime).length : Int) > n)) := by
+  have hC := strictTotal_ltC hId
+  have hperm' : (S.filter (inTimeWindow a.atOrAfterTime a.beforeTime)).Perm
+      (D.filter (inTimeWindow a.atOrAfterTime a.beforeTime)) := List.Perm.filter _ hperm
+  have hsorted' : Sorted (ltC ltId) (S.filter (inTimeWindow a.atOrAfterTime a.beforeTime)) :=
+    List.Pairwise.filter _ hsorted
+  obtain ⟨c, hres, _, _, hpi, _⟩ := conn_closed_form hC hs hperm' hsorted'
+    (serves_time_window hD hg a.atOrAfterTime a.beforeTime tc) a.conn sel av bv hacc.args
+  obtain ⟨pi, hpi1, hstart, hend, hnext, hprev, _, _⟩ := hpi hsel
+  have hm : matching ltId S av bv a.atOrAfterTime a.beforeTime =
+      (S.filter (inTimeWindow a.atOrAfterTime a.beforeTime)).filter (inRange (ltC ltId) av bv) := by
+    unfold matching
+    rw [List.filter_filter]
+    apply List.filter_congr
+    intro x _
+    rw [betweenCursors_eq_inRange, Bool.and_comm]
+  refine ⟨c, pi, by unfold resolveTime; rw [hacc.resolve_eq, hres], hpi1, hstart, hend, ?_, ?_⟩
+  · intro n hn; rw [hm]; exact hnext n hn
+  · intro n hn; rw [hm]; exact hprev n hn
+
 /-- **time_walk_exact** — if the getter cuts ties in id order, then for every time window and every
     page size `n ≥ 1`, walking forward by `endCursor`/`after` (or backward by `startCursor`/`before`)
     terminates, never meets an error, and visits exactly the edges inside the time window, in
